@@ -48,6 +48,10 @@ RULE = ('cases: REL/RELA tables (both classes, byte orders, MIPS64, 0..many entr
         'index and odd values (ARM Thumb function symbols); ~45 e_machine values outside the supported set (known and '
         'unknown numbers) whose debug relocations must be rejected, not skipped; stripped files linked by '
         '.gnu_debuglink (valid / bad CRC, own .debug_info present) to a relocatable debug file, both flags; '
+        'objects with TWO symbol tables (.symtab + .dynsym / second SHT_SYMTAB) whose .rel[a].debug_info and '
+        '.rel[a].debug_line link to different ones (different values at the same index; an index in range for one table '
+        'only), loaded by one get_dwarf_info or one RelocationHandler in either order; every image handed to the '
+        'library as a drawn stream kind (BytesIO, file, warm / small-buffer / at-end file, mmap, gzip, decoy fd); '
         'relocation application '
         'on synthesized relocatable images for every (machine, flavour, type) with random S/A/V, overlapping and boundary '
         'offsets, error classes, relocation on/off, via get_dwarf_info and via RelocationHandler. distinct = hash(kind, '
@@ -604,9 +608,10 @@ def gen_apply_many(ctx, cases):
     sections): below the threshold e_shnum holds the count, from 0xff00 on e_shnum = 0 and the count is sh_size of
     header 0.  The relocation section must be found wherever it sits."""
     rng = ctx.rng
-    plan = [(0xff00, 'before'), (0xff00 + rng.randrange(1, 300), 'after'), (0xfeff, 'before')]
+    plan = [(0xff00 + rng.choice([0, 0, rng.randrange(1, 300)]), rng.choice(['before', 'after']))]
+    plan += [(0xff00, 'before'), (0xff00 + 17, 'after')] * ctx.scale(0, 1)
     plan += [(rng.choice([0xff00, 0xff01, 0xffff, 0x10000, 0x10000 + rng.randrange(1, 500), 0xfeff]),
-              rng.choice(['before', 'after'])) for _ in range(ctx.scale(0, 9))]
+              rng.choice(['before', 'after'])) for _ in range(ctx.scale(0, 9))] + [(0xfeff, 'before')] * ctx.scale(0, 1)
     for total, place in plan:
         em = rng.choice([3, 40, 8, 62, 183, 258])
         for _ in range(20):
@@ -691,6 +696,50 @@ def gen_apply_link(ctx, cases):
                                              shape, fname]))
 
 
+def gen_apply_two(ctx, cases):
+    """two debug sections of ONE object, each with its own relocation section, whose sh_link name DIFFERENT symbol
+    tables (.symtab and .dynsym / a second SHT_SYMTAB) holding different values at the same indices: S is the value in
+    the table the relocation section links to.  Loaded by one get_dwarf_info() call or by ONE RelocationHandler used
+    for both sections in either order.  Sometimes the second table is shorter and an index valid in the first one is
+    out of range for it (must be rejected); sometimes both sections share one table."""
+    rng = ctx.rng
+    for em in [62, 62, 3, 40, 183, 8, 21, 22, 258]:
+        for _ in range(ctx.scale(6, 60)):
+            A = B = None
+            for _try in range(60):
+                c = gen_apply_case(rng, em)
+                if not c[5] or len(c[4]) < 2:
+                    continue
+                if A is None:
+                    A = c
+                elif c[:3] == A[:3]:
+                    B = c
+                    break
+            if B is None:
+                continue
+            le, is64, rela, dataA, symsA, entsA = A
+            _, _, _, dataB, symsB, entsB = B
+            shape = rng.choice(['own', 'own', 'own', 'shorter', 'shorter', 'shared'])
+            entsA = [list(e) for e in entsA]
+            entsB = [list(e) for e in entsB]
+            # both sections name the same indices (what a per-index memo would confuse)
+            for e in entsB:
+                e[1] = rng.randrange(len(symsB))
+            if shape == 'shorter':
+                symsA = symsA + [_rand_val(rng, 64 if is64 else 32) for _ in range(len(symsB) + 1 - len(symsA))] \
+                    if len(symsA) <= len(symsB) else symsA
+                k = len(symsB)                       # valid in A, out of range in B
+                entsA[0][1] = k
+                entsB[rng.randrange(len(entsB))][1] = k
+            else:
+                j = rng.randrange(1, min(len(symsA), len(symsB)))
+                entsA[0][1] = j
+                entsB[0][1] = j
+            cases.append(('apply_two', [em, le, is64, rela, rng.choice(['dwarfinfo', 'dwarfinfo', 'handlerAB', 'handlerBA']),
+                                        dataA, symsA, entsA, dataB, symsB, entsB, shape, rng.choice([2, 11]),
+                                        bytes(rng.randrange(1, 256) for _ in range(rng.choice([0, 1, 5])))]))
+
+
 def gen(ctx):
     cases = []
     gen_tables(ctx, cases)
@@ -705,13 +754,48 @@ def gen(ctx):
     gen_apply_symtypes(ctx, cases)
     gen_apply_unlisted(ctx, cases)
     gen_apply_link(ctx, cases)
-    return cases
+    gen_apply_two(ctx, cases)
+    return draw_stream_kinds(ctx, cases)
+
+
+def draw_stream_kinds(ctx, cases):
+    """the kind of stream object each image is handed to the library as (60% BytesIO, the rest over real files,
+    warm / small-buffer / positioned-at-end files, mmap, gzip, decoy descriptor), drawn from a generator of its own
+    so that the cases themselves do not depend on it; kept in the abstract as a trailing ['@stream', kind]"""
+    import random
+    from tools.lib.streams import draw_kind
+    r = random.Random(ctx.rng.getrandbits(48))
+    out = []
+    for kind, a in cases:
+        sk = draw_kind(r)
+        out.append((kind, list(a) + [['@stream', sk]] if sk != 'bytesio' else a))
+    return out
 
 
 # ----------------------------------------------------------------------------- evaluation
-def _open(img):
+_S = None          # the Streams() of the running evaluate()
+
+
+def _stream(data, sk='bytesio'):
+    """the bytes as the stream kind sk (tools/lib/streams.py): same bytes, another kind of object"""
+    return _S.open(data, sk) if _S is not None and sk != 'bytesio' else io.BytesIO(data)
+
+
+def _stream_bytes(st):
+    st.seek(0)
+    return st.read()
+
+
+def _open(img, sk='bytesio'):
     from elftools.elf.elffile import ELFFile
-    return ELFFile(io.BytesIO(img))
+    return ELFFile(_stream(img, sk))
+
+
+def split_stream_kind(a):
+    """abstract inputs may end with ['@stream', kind]: the kind of stream object the image is handed over as"""
+    if a and isinstance(a[-1], (list, tuple)) and len(a[-1]) == 2 and a[-1][0] == '@stream':
+        return list(a[:-1]), a[-1][1]
+    return a, 'bytesio'
 
 
 def _table_result(tab):
@@ -727,12 +811,25 @@ class _Case:
 
 
 def evaluate(ctx, cases):
+    global _S
+    from tools.lib.streams import Streams
+    _S = Streams(prefix='pv-c08-streams-')
+    try:
+        _evaluate(ctx, cases)
+    finally:
+        _S.close()
+        _S = None
+
+
+def _evaluate(ctx, cases):
     drv = ctx.driver
     b1 = Batch()
     work = []
     # ---------------- pass 1: encode records through the Coq spec
     for kind, a in cases:
         w = _Case()
+        w.full = a
+        a, w.sk = split_stream_kind(a)
         w.kind, w.a = kind, a
         if kind == 'table':
             le, is64, em, rela, ents, gap, via, slack = a
@@ -772,6 +869,12 @@ def evaluate(ctx, cases):
             w.h_rwf = [b1.add(['rents_wf', is64, mips64, r[2], r[3]]) for r in rsecs]
             w.h_syms = [b1.add(['enc_sym', le, is64, 0, v]) if isinstance(v, int) else
                         b1.add(['enc_sym_t', le, is64, 0, v[0], v[1], v[2], v[3]]) for v in symvals]
+        elif kind == 'apply_two':
+            em, le, is64, rela, via, dataA, symsA, entsA, dataB, symsB, entsB, shape, st2, gap = a
+            mips64 = is64 and em == EM['MIPS']
+            w.h_rs = [b1.add(['enc_table', le, is64, mips64, rela, e]) for e in (entsA, entsB)]
+            w.h_rwf = [b1.add(['rents_wf', is64, mips64, rela, e]) for e in (entsA, entsB)]
+            w.h_syms = [[b1.add(['enc_sym', le, is64, 0, v]) for v in sy] for sy in (symsA, symsB)]
         elif kind == 'dyn_overlap':
             le, is64, em, rela, ents, m, j, shape, via, order = a
             mips64 = is64 and em == EM['MIPS']
@@ -922,6 +1025,31 @@ def evaluate(ctx, cases):
                 w.h_wf = b2.add(['apply_wf', is64, em, w.target[2], _sym_vals(symvals), data, w.target[3]])
             else:
                 w.h_spec = w.h_wf = None
+        elif kind == 'apply_two':
+            em, le, is64, rela, via, dataA, symsA, entsA, dataB, symsB, entsB, shape, st2, gap = a
+            rt, rn, es = (4, '.rela', entsize_of(is64, True)) if rela else (9, '.rel', entsize_of(is64, False))
+            symB = 6 if shape == 'shared' else 7
+            secs = [dict(name='.debug_info', type=1, data=dataA),                                            # 1
+                    dict(name='.debug_abbrev', type=1, data=b'\x01\x11\x00\x00\x00\x00'),                  # 2
+                    dict(name='.debug_line', type=1, data=dataB),                                            # 3
+                    dict(name=rn + '.debug_info', type=rt, data=b1[w.h_rs[0]], link=6, info=1, entsize=es),   # 4
+                    dict(name=rn + '.debug_line', type=rt, data=b1[w.h_rs[1]], link=symB, info=3, entsize=es),  # 5
+                    dict(name='.symtab', type=2, data=b''.join(b1[h] for h in w.h_syms[0]), link=8, info=1,
+                         entsize=24 if is64 else 16),                                                        # 6
+                    dict(name='.dynsym' if st2 == 11 else '.symtab2', type=st2,
+                         data=b''.join(b1[h] for h in w.h_syms[1]), link=8, info=1, entsize=24 if is64 else 16),  # 7
+                    dict(name='.strtab', type=3, data=b'\0')]                                                # 8
+            w.img, w.offs = build_elf(le, is64, em, 1, secs, gap=gap)
+            full = [dict(name='', type=0, data=b'')] + secs
+            descs = [_sec_desc(s['name'], s['type'], w.offs[i], len(s['data']), s.get('link', 0), s.get('entsize', 0))
+                     for i, s in enumerate(full)]
+            descs.append(_sec_desc('.shstrtab', 3, w.offs[-1], 0, 0, 0))
+            usedB = symsA if shape == 'shared' else symsB
+            w.h_model = [b2.add(['model_read_dwarf', le, is64, em, w.img, descs, i, True]) for i in (1, 3)]
+            w.h_spec = [b2.add(['spec_apply', le, is64, em, rela, sy, d, e])
+                        for sy, d, e in ((symsA, dataA, entsA), (usedB, dataB, entsB))]
+            w.h_wf = [b2.add(['apply_wf', is64, em, rela, sy, d, e])
+                      for sy, d, e in ((symsA, dataA, entsA), (usedB, dataB, entsB))]
         elif kind == 'dyn':
             _assemble_dyn(w, b1, b2)
     b2.run(drv)
@@ -930,13 +1058,16 @@ def evaluate(ctx, cases):
     for w in work:
         kind, a = w.kind, w.a
         ctx.bump('kind', kind)
+        ctx.bump('stream_kind', w.sk)
+        if w.sk != 'bytesio':
+            ctx.bump('stream_kind_by_case', '%s:%s' % (kind, w.sk))
         if kind == 'table':
             _eval_table(ctx, w, b1, b2)
         elif kind == 'relsec_entsize':
             le, is64, em, rela, es = a
-            impl = impl_call(lambda: ok(1 if _open(w.img).get_section(1) is not None else 0))
+            impl = impl_call(lambda: ok(1 if _open(w.img, w.sk).get_section(1) is not None else 0))
             m = b2[w.h_model]
-            ctx.record(kind, a, impl=impl, spec=m, model=m, in_domain=False, nontrivial=True)
+            ctx.record(kind, w.full, impl=impl, spec=m, model=m, in_domain=False, nontrivial=True)
         elif kind == 'relr':
             _eval_relr(ctx, w, b1, b2)
         elif kind == 'relr_hist':
@@ -952,6 +1083,8 @@ def evaluate(ctx, cases):
             w.img = None
         elif kind == 'apply_link':
             _eval_apply_link(ctx, w, b1, b2)
+        elif kind == 'apply_two':
+            _eval_apply_two(ctx, w, b1, b2)
         elif kind == 'dyn':
             _eval_dyn(ctx, w, b1, b2, drv)
         elif kind == 'dyn_overlap':
@@ -962,7 +1095,7 @@ def _eval_table(ctx, w, b1, b2):
     from elftools.elf.relocation import RelocationTable
     le, is64, em, rela, ents, gap, via, slack = w.a
     def run():
-        elf = _open(w.img)
+        elf = _open(w.img, w.sk)
         if via == 'section':
             tab = elf.get_section_by_name(('.rela' if rela else '.rel') + '.foo')
             assert type(tab).__name__ == 'RelocationSection'
@@ -979,18 +1112,18 @@ def _eval_table(ctx, w, b1, b2):
     spec = ok([int(rela), len(ents), b1[w.h_view]])
     ctx.bump('entries', len(ents) if len(ents) < 8 else '8+')
     ctx.bump('config', '%s%d%s%s' % ('LE' if le else 'BE', 64 if is64 else 32, '-mips' if em == 8 else '', '-rela' if rela else '-rel'))
-    ctx.record('table', w.a, impl=impl, spec=spec, model=model, in_domain=b1[w.h_wf] == 1,
+    ctx.record('table', w.full, impl=impl, spec=spec, model=model, in_domain=b1[w.h_wf] == 1,
                nontrivial=len(ents) > 0)
 
 
-def _relr_table(img, off, size, le, is64, entsize):
+def _relr_table(img, off, size, le, is64, entsize, sk='bytesio'):
     """a bare RelrRelocationTable, as Dynamic.get_relocation_tables builds it: an elffile with stream + structs"""
     from elftools.elf.relocation import RelrRelocationTable
     from elftools.elf.structs import ELFStructs
     class FakeElf:
         pass
     fe = FakeElf()
-    fe.stream = io.BytesIO(img)
+    fe.stream = _stream(img, sk)
     fe.structs = ELFStructs(little_endian=le, elfclass=64 if is64 else 32)
     fe.structs.create_basic_structs()
     fe.structs.create_advanced_structs(None, None, None)
@@ -1054,16 +1187,16 @@ def _eval_relr_hist(ctx, w, b1, b2):
     wsz = 8 if is64 else 4
     def run():
         if via == 'section':
-            tab = _open(w.img).get_section_by_name('.relr.dyn')
+            tab = _open(w.img, w.sk).get_section_by_name('.relr.dyn')
             assert type(tab).__name__ == 'RelrRelocationSection'
         else:
-            tab = _relr_table(w.img, w.off, len(ws) * wsz, le, is64, wsz)
+            tab = _relr_table(w.img, w.off, len(ws) * wsz, le, is64, wsz, w.sk)
         return ok(run_history(tab, hist, lambda r: r['r_offset']))
     impl = impl_call(run)
     wf, noov = b1[w.h_wf]
     lead_bitmap = bool(ws) and ws[0] & 1 == 1
     _hist_bumps(ctx, hist)
-    ctx.record('relr_hist', w.a, impl=impl, spec=ok(b1[w.h_spec]), model=b2[w.h_model],
+    ctx.record('relr_hist', w.full, impl=impl, spec=ok(b1[w.h_spec]), model=b2[w.h_model],
                in_domain=bool(wf and noov and not lead_bitmap and b1[w.h_hok] == 1), nontrivial=len(hist) > 1,
                key='relr-history-leading-bitmap' if lead_bitmap else 'relr-history')
 
@@ -1072,7 +1205,7 @@ def _eval_rel_hist(ctx, w, b1, b2):
     from elftools.elf.relocation import RelocationTable
     le, is64, em, rela, ents, gap, via, slack, hist = w.a
     def run():
-        elf = _open(w.img)
+        elf = _open(w.img, w.sk)
         if via == 'section':
             tab = elf.get_section_by_name(('.rela' if rela else '.rel') + '.foo')
             assert type(tab).__name__ == 'RelocationSection'
@@ -1081,7 +1214,7 @@ def _eval_rel_hist(ctx, w, b1, b2):
         return ok(run_history(tab, hist, entry_items))
     impl = impl_call(run)
     _hist_bumps(ctx, hist)
-    ctx.record('rel_hist', w.a, impl=impl, spec=ok(b1[w.h_spec]), model=ok(b2[w.h_model]),
+    ctx.record('rel_hist', w.full, impl=impl, spec=ok(b1[w.h_spec]), model=ok(b2[w.h_model]),
                in_domain=bool(b1[w.h_wf] == 1 and b1[w.h_hok] == 1), nontrivial=len(hist) > 1, key='rel-history')
 
 
@@ -1089,10 +1222,10 @@ def _eval_relr(ctx, w, b1, b2):
     le, is64, ws, via, entsize = w.a
     def run():
         if via == 'section':
-            sec = _open(w.img).get_section_by_name('.relr.dyn')
+            sec = _open(w.img, w.sk).get_section_by_name('.relr.dyn')
             assert type(sec).__name__ == 'RelrRelocationSection'
         else:
-            sec = _relr_table(w.img, w.off, len(ws) * (8 if is64 else 4), le, is64, entsize)
+            sec = _relr_table(w.img, w.off, len(ws) * (8 if is64 else 4), le, is64, entsize, w.sk)
         offs = [r['r_offset'] for r in sec.iter_relocations()]
         assert sec.num_relocations() == len(offs)
         assert [sec.get_relocation(i)['r_offset'] for i in range(len(offs))] == offs
@@ -1105,7 +1238,7 @@ def _eval_relr(ctx, w, b1, b2):
     if not std_ent:
         spec = b2[w.h_model]
     ctx.bump('relr_words', len(ws) if len(ws) < 8 else '8+')
-    ctx.record('relr', w.a, impl=impl, spec=spec, model=b2[w.h_model],
+    ctx.record('relr', w.full, impl=impl, spec=spec, model=b2[w.h_model],
                in_domain=bool(wf and noov and std_ent and not lead_bitmap), nontrivial=len(ws) > 1,
                key='relr-leading-bitmap' if lead_bitmap else None)
 
@@ -1114,7 +1247,7 @@ def _eval_apply(ctx, w, b1, b2):
     from elftools.elf.relocation import RelocationHandler
     em, le, is64, relocate, via, data, symvals, rsecs, gap = w.a
     def run():
-        elf = _open(w.img)
+        elf = _open(w.img, w.sk)
         if via == 'dwarfinfo':
             di = elf.get_dwarf_info(relocate_dwarf_sections=relocate)
             assert di.debug_abbrev_sec.stream.getvalue() == b'\x01\x11\x00\x00\x00\x00'
@@ -1160,7 +1293,7 @@ def _eval_apply(ctx, w, b1, b2):
     ctx.bump('relocs', len(ents))
     ctx.bump('apply_outcome', spec[1] if is_err(spec) else 'ok')
     ctx.bump('relocate', int(relocate))
-    ctx.record('apply', w.a, impl=impl, spec=spec, model=model, in_domain=in_domain,
+    ctx.record('apply', w.full, impl=impl, spec=spec, model=model, in_domain=in_domain,
                nontrivial=len(ents) > 0 or is_err(spec), key=key)
 
 
@@ -1169,10 +1302,12 @@ def _eval_apply_link(ctx, w, b1, b2):
     asked = []
     def loader(name):
         asked.append(name)
-        return io.BytesIO(w.img)
+        # what a stream_loader hands over is a freshly opened stream (the CRC is computed from where it stands:
+        # dwarf_util._file_crc32 "reads the stream to the end"), so no pre-positioned kinds here
+        return _stream(w.img, 'file' if w.sk in ('file_end', 'file_warm') else w.sk)
     def run():
         from elftools.elf.elffile import ELFFile
-        elf = ELFFile(io.BytesIO(w.main), stream_loader=loader)
+        elf = ELFFile(_stream(w.main, w.sk), stream_loader=loader)
         di = elf.get_dwarf_info(relocate_dwarf_sections=relocate)
         return ok(di.debug_info_sec.stream.getvalue())
     impl = impl_call(run)
@@ -1188,15 +1323,58 @@ def _eval_apply_link(ctx, w, b1, b2):
     if shape == 'linked':
         assert asked in ([fname], [fname.encode()]), asked
     ctx.bump('debuglink', '%s-%s' % (shape, 'T' if relocate else 'F'))
-    ctx.record('apply_link', w.a, impl=impl, spec=spec, model=b2[w.h_model],
+    ctx.record('apply_link', w.full, impl=impl, spec=spec, model=b2[w.h_model],
                in_domain=bool(w.conventional and wf and shape != 'badcrc'), nontrivial=True, key='debuglink-relocate-flag')
+
+
+def _both(via, ra, rb):
+    """get_dwarf_info loads .debug_info before .debug_line and gives up at the first exception; one handler used for
+    the two sections separately reports each"""
+    if via == 'dwarfinfo':
+        if is_err(ra):
+            return ra
+        if is_err(rb):
+            return rb
+        return ok([ra[1], rb[1]])
+    return ok([ra, rb])
+
+
+def _eval_apply_two(ctx, w, b1, b2):
+    from elftools.elf.relocation import RelocationHandler
+    em, le, is64, rela, via, dataA, symsA, entsA, dataB, symsB, entsB, shape, st2, gap = w.a
+    def run():
+        elf = _open(w.img, w.sk)
+        if via == 'dwarfinfo':
+            di = elf.get_dwarf_info(relocate_dwarf_sections=True)
+            return ok([di.debug_info_sec.stream.getvalue(), di.debug_line_sec.stream.getvalue()])
+        h = RelocationHandler(elf)                     # ONE handler for both sections
+        res = {}
+        for name in (('.debug_info', '.debug_line') if via == 'handlerAB' else ('.debug_line', '.debug_info')):
+            try:
+                section = elf.get_section_by_name(name)
+                stream = io.BytesIO()
+                stream.write(section.data())
+                rs = h.find_relocations_for_section(section)
+                if rs is not None:
+                    h.apply_section_relocations(stream, rs)
+                res[name] = ok(stream.getvalue())
+            except Exception as e:      # noqa: every exception class is an observation
+                res[name] = ['err', type(e).__name__]
+        return ok([res['.debug_info'], res['.debug_line']])
+    impl = impl_call(run)
+    model = _both(via, b2[w.h_model[0]], b2[w.h_model[1]])
+    spec = _both(via, b2[w.h_spec[0]], b2[w.h_spec[1]])
+    wf = all(b2[h] == 1 for h in w.h_wf) and all(b1[h] == 1 for h in w.h_rwf)
+    ctx.bump('two_symtabs', '%s-%s' % (shape, via))
+    ctx.record('apply_two', w.full, impl=impl, spec=spec, model=model, in_domain=bool(wf), nontrivial=True,
+               key='apply-two-symtabs')
 
 
 def _eval_apply_many(ctx, w, b1, b2):
     from elftools.elf.relocation import RelocationHandler
     em, le, is64, nfill, place, relocate, via, data, symvals, rsecs = w.a
     def run():
-        elf = _open(w.img)
+        elf = _open(w.img, w.sk)
         assert elf.num_sections() == w.nsec
         if via == 'dwarfinfo':
             return ok(elf.get_dwarf_info(relocate_dwarf_sections=relocate).debug_info_sec.stream.getvalue())
@@ -1211,7 +1389,7 @@ def _eval_apply_many(ctx, w, b1, b2):
     impl = impl_call(run)
     spec, wf = b2[w.h_spec], b2[w.h_wf] == 1
     ctx.bump('many_sections', '%s-%s' % ('extended' if w.nsec >= 0xff00 else 'plain', place))
-    ctx.record('apply_many', w.a, impl=impl, spec=spec, model=b2[w.h_model], in_domain=bool(w.conventional and wf),
+    ctx.record('apply_many', w.full, impl=impl, spec=spec, model=b2[w.h_model], in_domain=bool(w.conventional and wf),
                nontrivial=True, key='apply-many-sections')
 
 
@@ -1220,7 +1398,7 @@ def _eval_apply_seq(ctx, w, b1, b2):
     from elftools.elf.relocation import RelocationHandler
     em, le, is64, calls, data, symvals, rsecs, gap = w.a
     def run():
-        elf = _open(w.img)
+        elf = _open(w.img, w.sk)
         held = []
         first = []
         for flag, via in calls:
@@ -1243,7 +1421,7 @@ def _eval_apply_seq(ctx, w, b1, b2):
                 held.append(None)
                 first.append(['err', type(e).__name__])
         again = [ok(st.getvalue()) if st is not None else r for st, r in zip(held, first)]
-        return ok([first, again, int(elf.stream.getvalue() == w.img)])
+        return ok([first, again, int(_stream_bytes(elf.stream) == w.img)])
     impl = impl_call(run)
     m = b2[w.h_model]
     model = ok([m[0], m[0], m[1]])
@@ -1257,7 +1435,7 @@ def _eval_apply_seq(ctx, w, b1, b2):
     flags = [c[0] for c in calls]
     ctx.bump('seq_flags', ''.join('T' if f else 'F' for f in flags))
     ctx.bump('seq_flavour', ('rela' if w.target[2] else 'rel') if w.target else 'none')
-    ctx.record('apply_seq', w.a, impl=impl, spec=spec, model=model, in_domain=bool(w.conventional and wf),
+    ctx.record('apply_seq', w.full, impl=impl, spec=spec, model=model, in_domain=bool(w.conventional and wf),
                nontrivial=len(ents) > 0 or is_err(sp), key='dwarf-call-sequence')
 
 
@@ -1344,9 +1522,9 @@ def _dyn_image(le, is64, em, secs, segs):
     return bytes(img), offs
 
 
-def _dyn_run(img, via, order):
+def _dyn_run(img, via, order, sk='bytesio'):
     from elftools.elf.dynamic import DynamicSegment, DynamicSection
-    elf = _open(img)
+    elf = _open(img, sk)
     if via == 'segment':
         dyn = [s for s in elf.iter_segments() if isinstance(s, DynamicSegment)][0]
     else:
@@ -1443,12 +1621,12 @@ def _eval_dyn_overlap(ctx, w, b1, drv):
     secs, segs = layout(dyn_bytes)
     img, offs2 = _dyn_image(le, is64, em, secs, segs)
     assert offs2 == offs and len(dyn_bytes) == ntags * 2 * wsz
-    impl = impl_call(_dyn_run, img, via, order)
+    impl = impl_call(_dyn_run, img, via, order, w.sk)
     model = _dyn_model(drv, le, is64, em, tags, img)
     spec = ok([['RELA' if rela else 'REL', int(rela), m[1] - m[0], b1[w.h_vm]],
                ['JMPREL', int(rela), j[1] - j[0], b1[w.h_vj]]])
     ctx.bump('dyn_overlap', shape)
-    ctx.record('dyn_overlap', w.a, impl=impl, spec=spec, model=model, in_domain=b1[w.h_wf] == 1, nontrivial=True,
+    ctx.record('dyn_overlap', w.full, impl=impl, spec=spec, model=model, in_domain=b1[w.h_wf] == 1, nontrivial=True,
                key='dyn-overlap')
 
 
@@ -1461,7 +1639,7 @@ def _eval_dyn(ctx, w, b1, b2, drv):
     secs, segs = w.layout(dyn_bytes)
     img, offs = _dyn_image(le, is64, em, secs, segs)
     assert offs == w.tables_offs
-    impl = impl_call(_dyn_run, img, via, order)
+    impl = impl_call(_dyn_run, img, via, order, w.sk)
     model = _dyn_model(drv, le, is64, em, w.tags, img)
     # spec: every table announced by the tags, with exactly its entries
     spec_out = []
@@ -1484,4 +1662,4 @@ def _eval_dyn(ctx, w, b1, b2, drv):
         in_domain = False     # a duplicated pointer tag: the gABI allows one of each; drift only
     ctx.bump('dyn_tables', len(tables))
     ctx.bump('dyn_quirk', quirk)
-    ctx.record('dyn', w.a, impl=impl, spec=spec, model=model, in_domain=bool(in_domain), nontrivial=len(tables) > 0)
+    ctx.record('dyn', w.full, impl=impl, spec=spec, model=model, in_domain=bool(in_domain), nontrivial=len(tables) > 0)
